@@ -1152,6 +1152,20 @@ func (p Patch) copy(doc *container, op Operation, accumulatedCopySize *int64, op
 		return fmt.Errorf("error in copy for from: '%s': %w", from, err)
 	}
 
+	if from == "" {
+		// The whole document: duplicate its current state, not the text
+		// the document was originally parsed from.
+		val = &lazyNode{}
+		switch sv := (*doc).(type) {
+		case *partialDoc:
+			val.doc = sv
+			val.which = eDoc
+		case *partialArray:
+			val.ary = sv
+			val.which = eAry
+		}
+	}
+
 	path, err := op.Path()
 	if err != nil {
 		return fmt.Errorf("copy operation failed to decode path: %w", ErrMissing)
